@@ -158,7 +158,17 @@ def equal_encoding(a, b):
   # Note for simple types, encode_object is trivial, and will result in a non-type-specific
   # comparison (e.g. 1 and 1.0 will compare equal, as would "a" and u"a"). This is to capture
   # equivalence of values in their JSON representations.
-  return encode_object(a) == encode_object(b)
+  return _equal_encoded(encode_object(a), encode_object(b))
+
+def _equal_encoded(a, b):
+  # Like ==, except that NaNs are equal wherever they occur (e.g. inside an encoded list).
+  if isinstance(a, float) and isinstance(b, float):
+    return a == b or (isnan(a) and isnan(b))
+  if isinstance(a, list) and isinstance(b, list):
+    return len(a) == len(b) and all(_equal_encoded(x, y) for x, y in zip(a, b))
+  if isinstance(a, dict) and isinstance(b, dict):
+    return len(a) == len(b) and all(k in b and _equal_encoded(v, b[k]) for k, v in a.items())
+  return a == b
 
 def encode_object(value):
   """
